@@ -123,6 +123,11 @@ def alleles_of(gt):
     return sorted(re.split(r"[/|]", gt))
 
 
+def is_supported_kind(r, only_snvs):
+    """one ALT allele, an SNV under --only-snvs (what the property calls a supported variant type; independent of position)"""
+    return len(r["alts"]) == 1 and (not only_snvs or (len(r["ref"]) == 1 and len(r["alts"][0]) == 1))
+
+
 def file_request(path, samples, hin, fc, phasing):
     """`c04.file` over the text of `path`"""
     _, trecs = sim.read_vcf_text(path)
@@ -166,7 +171,7 @@ def run_case(ctx, case, n):
     ctx.dist("output", out_kind)
     ctx.dist("file_shape", ("split " if v.get("split_chrom") else "") + ("manyALT " if v.get("many_alts") else "")
              + ("oddTagDefs " if v.get("odd_tag_defs") else "") + ("undeclInfo " if v.get("undeclared_info") else "") + ("undeclFILTER " if v.get("undeclared_filter") else "") + (v.get("refused") or "") + (" badSample" if o.get("bad_sample") else "")
-             + (" pedSamples" if o.get("use_ped_samples") else "") or "plain")
+             + (" pedSamples" if o.get("use_ped_samples") else "") + (f" edge:{v['edge']}" if v.get("edge") else "") or "plain")
     hin = [parse_hline(l) for l in header_lines(vcf)]
     fails = []
 
@@ -245,6 +250,15 @@ def run_case(ctx, case, n):
                 "ins" if len(r["ref"]) == 1 else "mnp/complex")
         got = any((r["chrom"], r["pos"]) in exp.get(s, {}) for s in targets)
         ctx.dist(f"colocated {'in front' if i < j else 'behind'}{' --only-snvs' if o['only_snvs'] else ''} {tag}", kind + ("" if got else " (variant unphased)"))
+        # coordinate boundaries: the same at the first (POS 1, 0-based 0) / last base of the contig
+        at = "first base" if r["pos"] == 0 else "last base" if r["pos"] == len(sc.contigs[r["chrom"]]) - 1 else None
+        if at:
+            ctx.dist("contig boundary", f"{at}: {kind} {'in front' if i < j else 'behind'}" + ("" if got else " (variant unphased)"))
+    for i in sorted(elig):
+        r = rin[i]
+        if r["chrom"] in processed and r["pos"] in (0, len(sc.contigs[r["chrom"]]) - 1):
+            got = any((r["chrom"], r["pos"]) in exp.get(s, {}) for s in targets)
+            ctx.dist("contig boundary", ("first" if r["pos"] == 0 else "last") + " base: the variant itself " + ("phased" if got else "unphased"))
     # ------------------------------------------------------------- text-level oracle
     if osamples != samples:
         fail(f"sample columns changed: {samples} -> {osamples}", "samples")
@@ -298,10 +312,17 @@ def run_case(ctx, case, n):
                 elif want is None:
                     why = "the position was not phased for this sample in this run"
                 if why:
+                    stale = ((("|" in b.get("GT", "")) or not is_missing(b.get("HP")))
+                             and all(oo.get(k, ".") == b.get(k, ".") for k in ("GT", "PS", "HP")))
+                    # a record of a supported kind that is left out only because an earlier record already stands for its
+                    # position (wherever that position is: POS 1 is 0-based 0): the phase written belongs to the other record
+                    dup = i not in elig and is_supported_kind(rin[i], o["only_snvs"])
+                    if dup:
+                        why = ("it is a further record at a position that an earlier record already stands for (duplicate position"
+                               + (", at the first base of the contig: 0-based position 0" if rin[i]["pos"] == 0 else "") + ")")
                     fail(f"{where} sample {s}: call {ocols[si]!r} (FORMAT {ofmt}) carries a phase mark although {why}; input call was {bcols[si]!r}",
                          # stale = the input's own mark left standing; a mark with another value was written by this run
-                         "stale-mark" if ((("|" in b.get("GT", "")) or not is_missing(b.get("HP")))
-                                          and all(oo.get(k, ".") == b.get(k, ".") for k in ("GT", "PS", "HP"))) else "phase-mark")
+                         "stale-mark" if stale else "duplicate-position-mark" if dup else "phase-mark")
     # trusted mode: super-read genotype = input genotype (hypothesis of alleles_preserved)
     if not o["distrust"]:
         for t in trace:
